@@ -4,3 +4,4 @@ from . import exc  # noqa: F401
 from . import ctxm  # noqa: F401
 from . import val  # noqa: F401
 from . import iterfog  # noqa: F401
+from . import binary  # noqa: F401
